@@ -80,6 +80,28 @@ func (c04) Gen(r *rand.Rand, tier string, run int) *core.Case {
 		c.Batch = "fault-free"
 	}
 	kinds := []string{"echo", "echo", "echo", "noarg", "fire", "slow", "cancel-echo", "cancel-noarg"}
+	if c.Batch == "fault-free" && r.IntN(5) == 0 {
+		// objects hosted by a client and lent to the service: the service
+		// calls them back over the lender's connection
+		c.Batch = "lent-objects"
+		c.Params["lend"] = 1
+		if r.IntN(4) == 0 {
+			// every lent object gets its identifier from a service reference
+			// of its own (Proxy.ProxyService called once per object)
+			c.Batch = "lent-objects-own-reference"
+			c.Params["lend"] = 2
+		}
+		c.Params["raw"] = 0
+		if nObj < 2 {
+			nObj = 2
+			c.Params["objects"] = 2
+		}
+		if nConn > 2 {
+			nConn = 2
+			c.Params["conns"] = 2
+		}
+		kinds = []string{"relay", "relay", "relay", "echo", "noarg"}
+	}
 	if r.IntN(3) == 0 {
 		// the generic object features are calls like any other: statistics
 		// and tracing change how an object answers
@@ -149,6 +171,28 @@ func (c04) Run(c *core.Case, env *core.Env) {
 			proxies[i] = append(proxies[i], p)
 		}
 	}
+	if c.P("lend", 0) >= 1 {
+		// one reference to the remote service per connection: the objects a
+		// client hosts get their identifiers from it
+		refs := map[int]bus.Service{}
+		for o := range w.ObjIDs {
+			cn := o % nConn
+			zzsim.SetNode(fmt.Sprintf("client%d", cn))
+			if refs[cn] == nil || c.P("lend", 0) == 2 {
+				refs[cn] = proxies[cn][o].Proxy().ProxyService(nil)
+			}
+			svcRef := refs[cn]
+			lp, err := probe.CreateLent(nil, svcRef, &LentImpl{Env: env, Obj: 100 + o})
+			if err == nil {
+				err = proxies[cn][o].Lend(lp)
+			}
+			zzsim.SetNode("harness")
+			if err != nil {
+				env.Violate("setup/lend", "lending an object to object %d: %v", o, err)
+				return
+			}
+		}
+	}
 	byActor := map[int][]core.Op{}
 	var actors []int
 	for _, op := range c.Ops {
@@ -206,6 +250,10 @@ func c04op(env *core.Env, a, i int, op core.Op, p probe.ProbeProxy) {
 	case "echo":
 		h := env.Invoke(a, "echo", arg)
 		ret, err := p.Echo(tok)
+		env.Return(h, tokOf(ret).String(), err)
+	case "relay":
+		h := env.Invoke(a, "relay", arg)
+		ret, err := p.Relay(tok)
 		env.Return(h, tokOf(ret).String(), err)
 	case "slow":
 		h := env.Invoke(a, "slow", arg)
@@ -310,8 +358,12 @@ func (c04) Check(c *core.Case, env *core.Env, res zzsim.Result, v *core.Verdict)
 	st, _ := env.Get("st").(*c04state)
 	hs := env.History()
 	execs := env.Execs()
+	prefix := "C04/"
+	if c.P("lend", 0) == 2 {
+		prefix = "C04/own-service-reference/"
+	}
 	bad := func(class, format string, args ...interface{}) {
-		v.Violations = append(v.Violations, core.Violation{Class: "C04/" + class, Detail: fmt.Sprintf(format, args...)})
+		v.Violations = append(v.Violations, core.Violation{Class: prefix + class, Detail: fmt.Sprintf(format, args...)})
 	}
 	if st == nil || st.w == nil {
 		return
@@ -343,10 +395,14 @@ func (c04) Check(c *core.Case, env *core.Env, res zzsim.Result, v *core.Verdict)
 		}
 		v.OpsDone++
 		switch h.Kind {
-		case "echo", "slow", "cancel-echo":
+		case "echo", "slow", "cancel-echo", "relay":
 			method := "echo"
 			if h.Kind == "slow" {
 				method = "slow"
+			}
+			if h.Kind == "relay" {
+				// executed by the object the client lent to server object obj
+				obj += 100
 			}
 			n := len(byKey[key])
 			if h.OK {
